@@ -335,8 +335,9 @@ reg(Check("C11", "model_checking",
                  Part("msg", SRV, "^TestVerifC11Msg$", instr=True, gomaxprocs=16, deadline=(400, 3000))]))
 
 reg(Check("C14", "model_checking",
-          "all schedules up to the deviation bound (quick 1, thorough 2) of 9 colliding scenarios on one group and one p2p topic with 5 sessions: "
+          "all schedules up to the deviation bound (quick 1, thorough 2) of 10 colliding scenarios on one group and one p2p topic with 5 sessions: "
           "leave|pub|sub, sub|disconnect, leave|eviction, del-sub|unsub|pub, del-topic|sub|pub, two subs in the load gap, idle unload|sub|disconnect, "
+          "slow consumer (a session whose connection stopped taking data, 160 queued messages) | pub | leave | pub, "
           "p2p unsub|unsub|resub, del-user|sub me; atomics loads are scheduling points; oracle at quiescence after virtual time has "
           "settled: every sub/leave/del answered, Session.subs <-> Topic.sessions symmetric, terminated sessions detached, online counters, "
           "request slots released, no deadlock / panic / livelock, no unprotected access; plus deleted topics stay deleted on every transition of the acl and p2p searches",
